@@ -112,6 +112,12 @@ func VerifC15_Leaf() {
 	vsymExpect("compared")
 	kind := vsymChoose(16)
 	n := vsymChoose(3)
+	if kind <= 7 && n == 2 && vsymTier() == 0 {
+		// quick: integer items with at most one symbolic element. strconv's small-value fast path
+		// slices a digit table at a symbolic offset, which the executor concretises: ~200 paths per
+		// symbolic integer, squared for two.
+		n = 1
+	}
 	it := c15Leaf(kind, n)
 	vsymAssert(it.Error() == nil, "item-error-free")
 	vsymReach("compared")
@@ -123,7 +129,7 @@ func VerifC15_Leaf() {
 // including empty lists and empty-item children.
 func c15Tree(depth int) secs2.Item {
 	if depth == 0 || vsymChoose(2) == 0 {
-		kinds := []int{1, 5, 8, 9, 10, 15}
+		kinds := []int{8, 9, 10, 11, 15}
 		return c15Leaf(kinds[vsymChoose(len(kinds))], 1)
 	}
 	k := vsymChoose(3)
@@ -147,19 +153,24 @@ func VerifC15_Tree() {
 }
 
 // VerifC15_ReadBack: the default rendering of integer, boolean and binary elements is read back by
-// the parser as the same value (8- and 16-bit integers fully symbolic; wider ones at their extremes).
+// the parser as the same value (all 8-bit integers; 16/64-bit ones at their boundaries; binary and
+// boolean elements symbolic).
 func VerifC15_ReadBack() {
 	vsymExpect("read-back")
 	var it secs2.Item
 	switch vsymChoose(8) {
 	case 0:
-		it = secs2.NewIntItem(1, int64(int8(vsymU8())), int64(int8(vsymU8())))
+		// every I1 value (enumerated: decimal text of a symbolic integer is a digit-table lookup the
+		// executor concretises anyway)
+		it = secs2.NewIntItem(1, int64(int8(vsymChoose(256))), int64(-7))
 	case 1:
-		it = secs2.NewIntItem(2, int64(int16(vsymU16())))
+		ex := []int64{-32768, -32767, -1000, -100, -99, -10, -9, -1, 0, 1, 9, 10, 99, 100, 999, 1000, 9999, 10000, 32766, 32767}
+		it = secs2.NewIntItem(2, ex[vsymChoose(len(ex))])
 	case 2:
-		it = secs2.NewUintItem(1, uint64(vsymU8()))
+		it = secs2.NewUintItem(1, uint64(vsymChoose(256)))
 	case 3:
-		it = secs2.NewUintItem(2, uint64(vsymU16()), uint64(vsymU16()))
+		ex := []uint64{0, 9, 10, 99, 100, 255, 256, 999, 1000, 9999, 10000, 65534, 65535}
+		it = secs2.NewUintItem(2, ex[vsymChoose(len(ex))], ex[vsymChoose(len(ex))])
 	case 4:
 		it = secs2.NewBinaryItem(vsymBytes(2))
 	case 5:
